@@ -556,6 +556,12 @@ func parseLinesPool() []string {
 			pool = append(pool, a+" "+n, a+"\t"+n+" x.y")
 		}
 	}
+	// every other name of the line generator, and names at the length limits (raw text longer than 253 bytes whose
+	// converted form is valid, and the other way round)
+	for i, n := range append(slices.Clone(gen.HostsNames[10:]), gen.LongNames()...) {
+		a := gen.HostsAddrs[i%3]
+		pool = append(pool, a+" "+n, a+" first.example "+n+" last.example")
+	}
 	return pool
 }
 
@@ -953,6 +959,7 @@ func runStorageBig(r *mon.Run, c stBig, q *int64) {
 		return n
 	}
 	var hist []string
+	reusedRec := &hostsfile.Record{}
 	for step := 0; step < c.Steps; step++ {
 		a := addr(rng.IntN(c.NAddrs))
 		if rng.IntN(3) == 0 {
@@ -969,7 +976,13 @@ func runStorageBig(r *mon.Run, c stBig, q *int64) {
 		hist = append(hist, fmt.Sprintf("Add{%v %q}", a, names))
 		// the record's Names slice has spare capacity and is scribbled over after the call
 		given := append(make([]string, 0, len(names)+3), names...)
-		s.Add(&hostsfile.Record{Addr: a, Names: given, Source: "big"})
+		// odd-numbered histories hand over one and the same *Record every time, refilled (a parser's scratch record)
+		rec := &hostsfile.Record{}
+		if c.Seed%2 == 1 {
+			rec = reusedRec
+		}
+		rec.Addr, rec.Names, rec.Source = a, given, "big"
+		s.Add(rec)
 		m.add(a, names)
 		for i := range given {
 			given[i] = "overwritten.example"
@@ -1002,6 +1015,123 @@ func runStorageBig(r *mon.Run, c stBig, q *int64) {
 	}
 }
 
+// stFold is one random history over names whose case relations differ between lower-casing, upper-casing and
+// simple folding (s/ſ, σ/ς, μ/µ, i/İ, k/K).  The statement does not say which of those
+// relations "case-insensitively" is, so the oracle first OBSERVES the relation (one probe address per name: names
+// n and n' are the same key iff ByName(n') lists the probe of n) and then demands that both indexes follow that one
+// relation: ByAddr without duplicates under it, ByName listing every address that has a name of the class.
+type stFold struct {
+	Fold  bool   `json:"fold"`
+	Steps int    `json:"steps"`
+	Seed  uint64 `json:"seed"`
+}
+
+var foldNames = []string{"strasse.example", "stra\u017fse.example", "STRASSE.example", "\u03c3.example", "\u03c2.example", "\u03a3.example", "\u03bc.example", "\u00b5.example",
+	"i.example", "\u0130.example", "I.example", "\u0131.example", "k.example", "\u212a.example", "K.example", "\u00df.example", "\u1e9e.example", "ss.example"}
+
+func runStorageFold(r *mon.Run, c stFold, q *int64) {
+	rng := rand.New(rand.NewPCG(c.Seed, 0xf01d))
+	s, _ := hostsfile.NewDefaultStorage()
+	probe := func(i int) netip.Addr { return netip.AddrFrom4([4]byte{10, 9, 0, byte(i)}) }
+	hAddrs := []netip.Addr{netip.MustParseAddr("1.2.3.4"), netip.MustParseAddr("::1"), netip.MustParseAddr("5.6.7.8")}
+	var hist []string
+	fail := func(what string) {
+		r.Violation(fmt.Sprintf("storage-fold:%v", c), fmt.Sprintf("DefaultStorage with one probe address 10.9.0.i per name %q, then [%s]: %s", foldNames, strings.Join(hist, "; "), what), c)
+	}
+	for i, n := range foldNames {
+		s.Add(&hostsfile.Record{Addr: probe(i), Names: []string{n}, Source: "probe"})
+	}
+	// the observed relation
+	nn := len(foldNames)
+	same := make([][]bool, nn)
+	for i := range same {
+		same[i] = make([]bool, nn)
+	}
+	for j, n := range foldNames {
+		*q++
+		got := s.ByName(n)
+		for i := range foldNames {
+			same[i][j] = slices.Contains(got, probe(i))
+		}
+		if !same[j][j] {
+			fail(fmt.Sprintf("ByName(%q)=%v does not list the address the name was added with", n, got))
+			return
+		}
+	}
+	for i := range foldNames {
+		for j := range foldNames {
+			if same[i][j] != same[j][i] {
+				fail(fmt.Sprintf("ByName(%q) lists the address of %q: %v, but ByName(%q) lists the address of %q: %v", foldNames[j], foldNames[i], same[i][j], foldNames[i], foldNames[j], same[j][i]))
+				return
+			}
+			for k := range foldNames {
+				if same[i][j] && same[j][k] && !same[i][k] {
+					fail(fmt.Sprintf("names %q, %q, %q: the first two and the last two share a ByName key, the outer two do not", foldNames[i], foldNames[j], foldNames[k]))
+					return
+				}
+			}
+		}
+	}
+	// ASCII case variants are one key under every reading of "case-insensitively"
+	for _, tr := range [][2]int{{0, 2}, {8, 10}, {12, 14}} {
+		if !same[tr[0]][tr[1]] {
+			fail(fmt.Sprintf("ByName(%q) does not list the address added as %q", foldNames[tr[1]], foldNames[tr[0]]))
+			return
+		}
+	}
+	cls := func(i int) int {
+		for j := 0; j <= i; j++ {
+			if same[j][i] {
+				return j
+			}
+		}
+		return i
+	}
+	mNames := map[netip.Addr][]int{} // address -> name indexes, first of each class
+	mAddrs := map[int][]netip.Addr{} // class -> addresses in first-seen order
+	for i := range foldNames {
+		mAddrs[cls(i)] = append(mAddrs[cls(i)], probe(i))
+	}
+	for step := 0; step < c.Steps; step++ {
+		a := hAddrs[rng.IntN(len(hAddrs))]
+		var idx []int
+		var names []string
+		for k := 1 + rng.IntN(3); k > 0; k-- {
+			i := rng.IntN(nn)
+			idx = append(idx, i)
+			names = append(names, foldNames[i])
+		}
+		hist = append(hist, fmt.Sprintf("Add{%v %q}", a, names))
+		s.Add(&hostsfile.Record{Addr: a, Names: names, Source: "fold"})
+		for _, i := range idx {
+			if !slices.ContainsFunc(mNames[a], func(x int) bool { return cls(x) == cls(i) }) {
+				mNames[a] = append(mNames[a], i)
+			}
+			if !slices.Contains(mAddrs[cls(i)], a) {
+				mAddrs[cls(i)] = append(mAddrs[cls(i)], a)
+			}
+		}
+		for _, a := range hAddrs {
+			*q++
+			var want []string
+			for _, i := range mNames[a] {
+				want = append(want, foldNames[i])
+			}
+			if got := s.ByAddr(a); !slices.Equal(got, want) {
+				fail(fmt.Sprintf("ByAddr(%v)=%q; by the key relation that ByName showed for the probe addresses it is %q", a, got, want))
+				return
+			}
+		}
+		for i, n := range foldNames {
+			*q++
+			if got := s.ByName(n); !slices.Equal(got, mAddrs[cls(i)]) {
+				fail(fmt.Sprintf("ByName(%q)=%v; by the key relation that ByName showed for the probe addresses it is %v", n, got, mAddrs[cls(i)]))
+				return
+			}
+		}
+	}
+}
+
 func TestStorage(t *testing.T) {
 	r := mon.Start("C08", "storage")
 	var rc []stRec
@@ -1011,7 +1141,10 @@ func TestStorage(t *testing.T) {
 		}
 		var q int64
 		var bc stBig
-		if ok2, _ := mon.ReplayCase("storage", &bc); ok2 && bc.Steps > 0 {
+		var fc stFold
+		if ok3, _ := mon.ReplayCase("storage", &fc); ok3 && fc.Fold {
+			runStorageFold(r, fc, &q)
+		} else if ok2, _ := mon.ReplayCase("storage", &bc); ok2 && bc.Steps > 0 {
 			runStorageBig(r, bc, &q)
 		} else {
 			runStorage(r, rc, &q)
@@ -1082,6 +1215,22 @@ func TestStorage(t *testing.T) {
 			r.Eval(q)
 			r.NontrivialN(int64(hi - lo))
 			r.Count("large_universe_histories", int64(hi-lo))
+		})
+	}
+	// names whose case relations differ between lower-casing and folding
+	{
+		nFold := r.Pick(400, 40000)
+		mon.Parallel(nFold, func(w, lo, hi int) {
+			var q int64
+			for i := lo; i < hi; i++ {
+				runStorageFold(r, stFold{Fold: true, Steps: 12, Seed: r.Seed*7919 + uint64(i)}, &q)
+				if r.TooMany() {
+					break
+				}
+			}
+			r.Eval(q)
+			r.NontrivialN(int64(hi - lo))
+			r.Count("special_casing_histories", int64(hi-lo))
 		})
 	}
 	// several sources in one call: each is a hosts file of its own (a last line without a newline ends there)
